@@ -27,6 +27,8 @@ import (
 const modPath = "github.com/kercylan98/vivid"
 
 type Program struct {
+	ctxG    *IG // graph context of provenance queries (withGraph)
+	gstores map[*ssa.Global][]ssa.Instruction
 	RepoDir string
 	GOARCH  string
 	Pkgs    []*packages.Package
